@@ -48,6 +48,13 @@ The three variants.
   goroutine restarted the clock in between (Props.C14.old_makeDeadline_stale_deadline,
   old_makeDeadline_stale_fastpath).
 
+Program counters and the schedule points of the verif build (`verifClockPoint`, used by leg I to hold
+a goroutine): `gotFirst` = standing at point 1 (after the `clockEnd` read); `needLock` = at point 2
+(after the `current` read) with `end > clockEnd`; `needExtend` = at point 3 (between the two sections;
+old/split only); `done` = returned (4).  `step`/`run` are computable, so a schedule of leg I can be
+replayed here: `begin` = `begin d`, "advance g to point k" = `stepG g` until its pc is the one above,
+sleeps = `idle`/`tick`.
+
 Timing.  Steps take no time; time passes in `tick dt` / `idle dt` events, which may come between any
 two steps and are enabled exactly as in `Clock.step` (while an updater is alive time does not pass
 beyond `lastWrite + period + eps`; a wake-up comes no sooner than `period` after the last).
